@@ -258,9 +258,14 @@ def in_summary(i):
     if t == "recv":
         acts = ["%s/%s%s" % (a["id"], a["at"], "".join("[%s %s%s->%s]" % (f["k"], f["v"], "" if f["vc"] == "OK" else ":" + f["vc"], f["to"]) for f in a["fees"])) for a in i.get("acts", [])]
         fw = {k: v for k, v in i.get("fw", {}).items() if v not in ("NONE", 0, "")}
-        return "recv chan=%s rcv=%s dn=%s base=%s amt=%s%s mk=%s fw=%s acts=%s%s" % (
+        mk = i.get("mk")
+        if mk == "MUT":
+            mk = "MUT[%s @ %s]" % (i.get("op"), i.get("aid"))
+        elif mk == "RANDOM":
+            mk = "RANDOM[%s #%s]" % (i.get("op"), i.get("v"))
+        return "recv chan=%s rcv=%s dn=%s base=%r amt=%s%s mk=%s fw=%s acts=%s%s" % (
             i.get("chan"), i.get("rcv"), i.get("dn"), i.get("base"), i.get("amt"), "" if i.get("amtc") == "OK" else ":" + str(i.get("amtc")),
-            i.get("mk"), fw, acts, (" faults=%s" % i["faults"]) if i.get("faults") else "")
+            mk, fw, acts, (" faults=%s" % i["faults"]) if i.get("faults") else "")
     if t == "admin":
         return "admin %s signer=%s pid=%s cps=%s aid=%s v=%s" % (i.get("rpc"), i.get("signer"), i.get("pid"), i.get("cps"), i.get("aid"), i.get("v"))
     if t == "deposit":
